@@ -361,8 +361,6 @@ Section Dec.
   Definition dec_bits (fl: dec_flags) (sp: option ty) (ts: tagset) (len: nat) (sfun: bool) : proc dval :=
     if sfun then collector (Some len) else
     if Nat.eqb len 0 then Raise EMalformed else
-    let! eos := ateos in
-    if eos then Raise EMalformed else
     if tag0_simple ts then
       let! tb := read1 in
       if N.ltb 7 tb then Raise EMalformed else
@@ -605,7 +603,10 @@ Section Dec.
            | O => Raise EOutOfFuel
            | S n' =>
                let! d := rec sp ts None true false in
-               match d with DEoo => Ret last | _ => loop n' d end
+               match d with
+               | DEoo => match last with DNoValue => Raise EMalformed | _ => Ret last end
+               | _ => loop n' d
+               end
            end) loopfuel DNoValue
     end.
 
@@ -764,3 +765,26 @@ Definition decode (c: codec) (sp: option ty) (b: bytes) : res (dval * bytes) :=
   | inr (Ok d, s) => Ok (d, avail s)
   | inr (Err e, _) => Err e
   end.
+
+(* the same with the fuel chosen by the caller (the proc must not depend on the input) *)
+Definition decode_with (c: codec) (fuel: nat) (sp: option ty) (b: bytes) : res (dval * bytes) :=
+  match run_complete (dec_item c fuel sp) b with
+  | inl _ => Err EUnderrun
+  | inr (Ok d, s) => Ok (d, avail s)
+  | inr (Err e, _) => Err e
+  end.
+
+(* StreamingDecoder.__iter__: one item, then isEndOfStream, and so on; each object is reported
+   together with the stream position right after it *)
+Definition item_pos (c: codec) (fuel: nat) (sp: option ty) : proc (dval * nat) :=
+  let! d := dec_item c fuel sp in let! p := tell in Ret (d, p).
+
+Fixpoint iter_loop {A} (n: nat) (item: proc A) : proc (list A) :=
+  match n with
+  | O => Ret []
+  | S n' => pbind item (fun d => AtEOS (fun eos => if eos then Ret [d]
+                                          else pbind (iter_loop n' item) (fun ds => Ret (d :: ds))))
+  end.
+
+Definition streaming (c: codec) (fuel: nat) (sp: option ty) : proc (list (dval * nat)) :=
+  iter_loop fuel (item_pos c fuel sp).
